@@ -577,6 +577,10 @@ def _roundtrip_one(ctx, r, kind, i):
         if fuzzy is not None or kind == "FusionART":
             outs = tuple(a + (a.max(axis=0) - a.min(axis=0)) * np.array([[(-1.0) ** (i_ + j_) * 0.5 * ((i_ + j_) % 3) for j_ in range(a.shape[1])]
                                                                          for i_ in range(a.shape[0])]) for a in args)
+            if all(np.asarray(a).dtype.kind in "iu" for a in args):
+                # a later batch of the SAME integer dtype as the first (unsigned pixel values below the first minimum …)
+                outs = tuple(np.clip(np.round(o), np.iinfo(a.dtype).min, np.iinfo(a.dtype).max).astype(a.dtype) for o, a in zip(outs, args))
+                cov.hit("later-call-outside-bounds:integer-typed")
             try:
                 P3 = prep(outs)
                 R3 = restore(P3)
@@ -588,7 +592,7 @@ def _roundtrip_one(ctx, r, kind, i):
             okmap = True
             for t, a, o3, fz in (zip(M3, args, outs, fuzzy) if fuzzy is not None else []):
                 mn, mx = a.min(axis=0), a.max(axis=0)
-                want = (o3 - mn) / (mx - mn)
+                want = (np.asarray(o3, dtype=float) - mn) / (np.asarray(mx, dtype=float) - mn)
                 got = np.asarray(t, dtype=float)[:, : a.shape[1]]
                 if got.shape != want.shape or not np.allclose(got, want, rtol=1e-9, atol=1e-9):
                     okmap = False
